@@ -1,13 +1,23 @@
 (* C16 driver: model leg = extracted Model.v functions (or, for a function whose run-time path is
    a compiler builtin, the Spec.v function: the builtin is not library code); spec leg =
    extracted Spec.v.  Values are IEEE bit patterns, the single NaN prints as the quiet NaN. *)
-type fmtrec = { p : z; e : z; dec : z -> binary_float; enc : binary_float -> z;
+type fmtrec = { p : z; e : z; rd : toks -> binary_float; pr : binary_float -> string;
                 na : binary_float -> binary_float -> binary_float; sb : binary_float -> bool }
 
-let f32 = { p = z_of_int 24; e = z_of_int 128; dec = dec32; enc = enc32; na = nextafter32; sb = signbit_fb32 }
-let f64 = { p = z_of_int 53; e = z_of_int 1024; dec = dec64; enc = enc64; na = nextafter64; sb = signbit_fb64 }
+let no_na _ _ = raise Not_found
+let no_sb _ = raise Not_found
+let f32 = { p = z_of_int 24; e = z_of_int 128; rd = (fun t -> dec32 (next_z t)); pr = (fun v -> str_of_z (enc32 v));
+            na = nextafter32; sb = signbit_fb32 }
+let f64 = { p = z_of_int 53; e = z_of_int 1024; rd = (fun t -> dec64 (next_z t)); pr = (fun v -> str_of_z (enc64 v));
+            na = nextafter64; sb = signbit_fb64 }
+(* x87 extended: three tokens "sign significand biased-exponent" *)
+let z0 = z_of_int 0
+let f80 = { p = z_of_int 64; e = z_of_int 16384;
+            rd = (fun t -> let s = next_z t in let m = next_z t in let ex = next_z t in dec80 (s <> z0) m ex);
+            pr = (fun v -> let (s, (m, ex)) = enc80 v in join [ b2s s; str_of_z m; str_of_z ex ]);
+            na = no_na; sb = no_sb }
 
-let okf f v = join [ "ok"; str_of_z (f.enc v) ]
+let okf f v = join [ "ok"; f.pr v ]
 let okb b = join [ "ok"; b2s b ]
 let okz z = join [ "ok"; str_of_z z ]
 let resf f = function Ok v -> okf f v | UB _ -> "ub" | Contract -> "contract" | OutOfFuel -> "fuel"
@@ -20,9 +30,16 @@ let is_zero = function B754_zero _ -> true | _ -> false
 
 let run_fmt f fn t =
   let p = f.p and e = f.e in
-  let u1 m s = let x = f.dec (next_z t) in (m x, s x) in
-  let b2 m s = let x = f.dec (next_z t) in let y = f.dec (next_z t) in (m x y, s x y) in
+  let u1 m s = let x = f.rd t in (m x, s x) in
+  let b2 m s = let x = f.rd t in let y = f.rd t in (m x y, s x y) in
+  let is80 = (f == f80) in
   match fn with
+  (* --- long double: the public functions run the gcem kernels also at run time *)
+  | "floor" when is80 -> u1 (fun x -> resf f (g_floor p e x)) (fun x -> okf f (spec_floor p e x))
+  | "ceil" when is80 -> u1 (fun x -> resf f (g_ceil p e x)) (fun x -> okf f (spec_ceil p e x))
+  | "trunc" when is80 -> u1 (fun x -> resf f (g_trunc p e x)) (fun x -> okf f (spec_trunc p e x))
+  | "round" when is80 -> u1 (fun x -> resf f (g_round p e x)) (fun x -> okf f (spec_round p e x))
+  | "copysign" when is80 -> b2 (fun x y -> okf f (e_copysign_fb p e x y)) (fun x y -> okf f (spec_copysign p e x y))
   (* --- run-time path = compiler builtin: modelled by the specification *)
   | "floor" -> u1 (fun x -> okf f (spec_floor p e x)) (fun x -> okf f (spec_floor p e x))
   | "ceil" -> u1 (fun x -> okf f (spec_ceil p e x)) (fun x -> okf f (spec_ceil p e x))
@@ -69,18 +86,18 @@ let run_fmt f fn t =
   | "g_remainder" -> b2 (fun x y -> resf f (g_fmod p e x y)) (fun x y -> okf f (spec_remainder p e x y))
   | "copysign_fb" -> b2 (fun x y -> okf f (e_copysign_fb p e x y)) (fun x y -> okf f (spec_copysign p e x y))
   | "lerp" ->
-      let a = f.dec (next_z t) in let b = f.dec (next_z t) in let tt = f.dec (next_z t) in
+      let a = f.rd t in let b = f.rd t in let tt = f.rd t in
       (okf f (e_lerp p e a b tt),
        (* the exactness guarantees are stated with ==: a zero expectation leaves the sign open *)
        match spec_lerp_exact p e a b tt with
        | Some v when not (is_zero v) -> okf f v
        | _ -> "na")
   | "hypot" ->
-      let x = f.dec (next_z t) in let y = f.dec (next_z t) in
+      let x = f.rd t in let y = f.rd t in
       ((match e_hypot_ladder p e x y with Some v -> okf f v | None -> "ok finite"),
        optf f (spec_hypot_special p e x y))
   | "hypot3" ->
-      let x = f.dec (next_z t) in let y = f.dec (next_z t) in let zz = f.dec (next_z t) in
+      let x = f.rd t in let y = f.rd t in let zz = f.rd t in
       ((match e_hypot3_ladder p e x y zz with Some v -> okf f v | None -> "ok finite"),
        optf f (spec_hypot3_special p e x y zz))
   | _ -> raise Not_found
@@ -89,7 +106,7 @@ let run_case op t =
   let n = String.length op in
   if n < 3 then raise Not_found;
   let fn = String.sub op 0 (n - 2) and fm = String.sub op (n - 2) 2 in
-  let f = match fm with "32" -> f32 | "64" -> f64 | _ -> raise Not_found in
+  let f = match fm with "32" -> f32 | "64" -> f64 | "80" -> f80 | _ -> raise Not_found in
   match fn with
   | "sweep" -> ("ok 0 -", "ok 0 -")
   | _ -> run_fmt f fn t
